@@ -64,8 +64,10 @@ type Prog struct {
 	boundMethod map[*ssa.Function]*ssa.Function // synthetic $bound wrapper -> method
 	// implOf: thin forwarding wrapper (func hasCycle(g, a, b) bool { return g.hasCycle(a, b) }) -> the function it forwards to
 	defaultOf map[*ssa.Function]*ssa.Function
+	inlinedInto map[string]string // role name -> the caller it was merged into
+	fwdOf     map[*ssa.Function]*fwdInfo
 	roleNames map[string]bool
-	implOf map[*ssa.Function]*ssa.Function
+	implOf    map[*ssa.Function]*ssa.Function
 }
 
 type callSite struct {
@@ -139,7 +141,8 @@ func loadProgramRaw(repo string, cfg BuildConfig) (*Prog, error) {
 		return nil, &loadError{"packages internal/ergo and cmd/ergo not both found"}
 	}
 	for f := range ssautil.AllFunctions(prog) {
-		if p.InModule(f) && f.Blocks != nil && f.Synthetic == "" {
+		if p.InModule(f) && f.Blocks != nil && (f.Synthetic == "" || strings.HasPrefix(f.Synthetic, "range-over-func")) {
+			// (the body of a range-over-func loop is a synthetic yield function: it is code of the module like any closure)
 			p.Fns = append(p.Fns, f)
 		}
 	}
@@ -184,6 +187,24 @@ func loadProgramRaw(repo string, cfg BuildConfig) (*Prog, error) {
 			p.implOf[f] = impl
 		}
 	}
+	// constructing wrappers (isReady(t, g) = newEvaluator(g).isReady(t)) and memo wrappers (cache lookup around F(k))
+	for _, f := range p.Fns {
+		if p.implOf[f] == nil {
+			if impl := constructingWrapperTarget(p, f); impl != nil {
+				p.implOf[f] = impl
+			} else if impl := memoWrapperTarget(p, f); impl != nil {
+				p.implOf[f] = impl
+			}
+		}
+	}
+	// chains (wrapper -> method -> memo -> implementation) collapse to their end
+	for f := range p.implOf {
+		seenW := map[*ssa.Function]bool{f: true}
+		for t := p.implOf[f]; p.implOf[t] != nil && !seenW[p.implOf[t]]; t = p.implOf[f] {
+			seenW[t] = true
+			p.implOf[f] = p.implOf[t]
+		}
+	}
 	// defaulting wrappers: the old name kept as `return g(params..., <constants>)` after the implementation gained
 	// a parameter; only the role lookup (ErgoFn) follows these, call sites keep their own callee
 	p.defaultOf = map[*ssa.Function]*ssa.Function{}
@@ -191,6 +212,15 @@ func loadProgramRaw(repo string, cfg BuildConfig) (*Prog, error) {
 		if p.implOf[f] == nil {
 			if impl := defaultingWrapperTarget(p, f); impl != nil {
 				p.defaultOf[f] = impl
+			}
+		}
+	}
+	// field-forwarding methods of a store object: l.read() = readEvents(l.path)
+	p.fwdOf = map[*ssa.Function]*fwdInfo{}
+	for _, f := range p.Fns {
+		if p.implOf[f] == nil && p.defaultOf[f] == nil {
+			if fi := fieldForwarder(p, f); fi != nil {
+				p.fwdOf[f] = fi
 			}
 		}
 	}
@@ -495,6 +525,309 @@ func defaultingWrapperTarget(p *Prog, f *ssa.Function) *ssa.Function {
 		return nil
 	}
 	return g
+}
+
+// constructingWrapperTarget: f's whole body is `return Ctor(p...).Method(q...)` where Ctor is a module constructor (its
+// result is the receiver), and every argument of both calls is one of f's own parameters, each used once: f is the
+// method evaluated on a fresh object built from its parameters.
+func constructingWrapperTarget(p *Prog, f *ssa.Function) *ssa.Function {
+	if f.Parent() != nil || len(f.Blocks) != 1 || len(f.Params) == 0 {
+		return nil
+	}
+	var calls []*ssa.Call
+	for _, in := range f.Blocks[0].Instrs {
+		switch x := in.(type) {
+		case *ssa.Call:
+			calls = append(calls, x)
+		case *ssa.Return, *ssa.DebugRef, *ssa.Extract:
+		default:
+			return nil
+		}
+	}
+	if len(calls) != 2 {
+		return nil
+	}
+	ctor, meth := calls[0], calls[1]
+	cf, mf := ctor.Call.StaticCallee(), meth.Call.StaticCallee()
+	if cf == nil || mf == nil || !p.InModule(cf) || !p.InModule(mf) || cf.Blocks == nil || mf.Blocks == nil || mf == f || mf.Signature.Recv() == nil {
+		return nil
+	}
+	if len(meth.Call.Args) == 0 || meth.Call.Args[0] != ssa.Value(ctor) {
+		return nil
+	}
+	if _, isPtr := cf.Signature.Results().At(0).Type().Underlying().(*types.Pointer); cf.Signature.Results().Len() != 1 || !isPtr {
+		return nil
+	}
+	used := map[*ssa.Parameter]bool{}
+	for _, a := range append(append([]ssa.Value{}, ctor.Call.Args...), meth.Call.Args[1:]...) {
+		prm, ok := a.(*ssa.Parameter)
+		if !ok || prm.Parent() != f || used[prm] {
+			return nil
+		}
+		used[prm] = true
+	}
+	ret, ok := f.Blocks[0].Instrs[len(f.Blocks[0].Instrs)-1].(*ssa.Return)
+	if !ok {
+		return nil
+	}
+	for i, r := range ret.Results {
+		if r == ssa.Value(meth) {
+			continue
+		}
+		if ex, ok := r.(*ssa.Extract); ok && ex.Tuple == ssa.Value(meth) && ex.Index == i {
+			continue
+		}
+		return nil
+	}
+	return mf
+}
+
+// memoWrapperTarget: f is `if v, ok := cache[k]; ok { return v }; v := F(k); cache[k] = v; return v` with cache a map
+// field of the receiver that no other function touches: f is F remembered, i.e. F for every purpose of the rules.
+func memoWrapperTarget(p *Prog, f *ssa.Function) *ssa.Function {
+	if f.Parent() != nil || len(f.Blocks) != 3 || f.Signature.Recv() == nil || f.Signature.Results().Len() != 1 {
+		return nil
+	}
+	var lk *ssa.Lookup
+	var mu *ssa.MapUpdate
+	var call *ssa.Call
+	for _, b := range f.Blocks {
+		for _, in := range b.Instrs {
+			switch x := in.(type) {
+			case *ssa.Lookup:
+				if lk != nil || !x.CommaOk {
+					return nil
+				}
+				lk = x
+			case *ssa.MapUpdate:
+				if mu != nil {
+					return nil
+				}
+				mu = x
+			case *ssa.Call:
+				if call != nil {
+					return nil
+				}
+				call = x
+			case *ssa.FieldAddr, *ssa.UnOp, *ssa.Extract, *ssa.If, *ssa.Return, *ssa.DebugRef, *ssa.Jump:
+			default:
+				return nil
+			}
+		}
+	}
+	if lk == nil || mu == nil || call == nil {
+		return nil
+	}
+	g := call.Call.StaticCallee()
+	if g == nil || g == f || !p.InModule(g) || g.Blocks == nil {
+		return nil
+	}
+	// same cache (a field of the receiver), same key (a parameter), the computed value is what is stored and returned
+	cacheField := func(v ssa.Value) (*ssa.Parameter, int) {
+		u, ok := v.(*ssa.UnOp)
+		if !ok {
+			return nil, -1
+		}
+		fa, ok := u.X.(*ssa.FieldAddr)
+		if !ok {
+			return nil, -1
+		}
+		prm, ok := fa.X.(*ssa.Parameter)
+		if !ok || prm != f.Params[0] {
+			return nil, -1
+		}
+		return prm, fa.Field
+	}
+	r1, f1 := cacheField(lk.X)
+	r2, f2 := cacheField(mu.Map)
+	if r1 == nil || r2 == nil || f1 != f2 {
+		return nil
+	}
+	key, ok := lk.Index.(*ssa.Parameter)
+	if !ok || key.Parent() != f || mu.Key != ssa.Value(key) || mu.Value != ssa.Value(call) {
+		return nil
+	}
+	keyPassed := false
+	for _, a := range call.Call.Args {
+		if a == ssa.Value(key) {
+			keyPassed = true
+		} else if prm, ok := a.(*ssa.Parameter); !ok || prm.Parent() != f {
+			return nil
+		}
+	}
+	if !keyPassed {
+		return nil
+	}
+	nRet := 0
+	for _, b := range f.Blocks {
+		ret, ok := b.Instrs[len(b.Instrs)-1].(*ssa.Return)
+		if !ok {
+			continue
+		}
+		nRet++
+		v := ret.Results[0]
+		if v == ssa.Value(call) {
+			continue
+		}
+		if ex, ok := v.(*ssa.Extract); ok && ex.Tuple == ssa.Value(lk) && ex.Index == 0 {
+			continue
+		}
+		return nil
+	}
+	if nRet != 2 {
+		return nil
+	}
+	// nobody else reads or writes the cache
+	st := f.Params[0].Type()
+	for _, other := range p.Fns {
+		if other == f {
+			continue
+		}
+		bad := false
+		for _, b := range other.Blocks {
+			for _, in := range b.Instrs {
+				if fa, ok := in.(*ssa.FieldAddr); ok && fa.Field == f1 && types.Identical(fa.X.Type(), st) {
+					// the constructor's initialisation (a store of a fresh map) is fine
+					for _, r := range *fa.Referrers() {
+						if s, ok := r.(*ssa.Store); ok && s.Addr == ssa.Value(fa) {
+							if _, isMake := s.Val.(*ssa.MakeMap); isMake {
+								continue
+							}
+						}
+						bad = true
+					}
+				}
+			}
+		}
+		if bad {
+			return nil
+		}
+	}
+	return g
+}
+
+// fwdInfo describes a forwarding method: its whole body is `return Target(a1..an)` where every argument is one of its
+// own parameters or a field of one (the receiver): a call of the method is a call of Target with those arguments.
+type fwdInfo struct {
+	Target *ssa.Function
+	Args   []fwdArg
+}
+
+// fwdArg: argument i of the forwarded call is parameter Param of the forwarder (Field < 0) or its field Field.
+type fwdArg struct {
+	Param int
+	Field int
+}
+
+func fieldForwarder(p *Prog, f *ssa.Function) *fwdInfo {
+	if f.Parent() != nil || len(f.Blocks) != 1 || len(f.Params) == 0 {
+		return nil
+	}
+	var call *ssa.Call
+	for _, in := range f.Blocks[0].Instrs {
+		switch x := in.(type) {
+		case *ssa.Call:
+			if call != nil {
+				return nil
+			}
+			call = x
+		case *ssa.Return, *ssa.DebugRef, *ssa.Extract, *ssa.Alloc, *ssa.FieldAddr, *ssa.UnOp, *ssa.Field:
+		case *ssa.Store:
+			// the spill of a by-value receiver / parameter into its local copy
+			if _, isPrm := x.Val.(*ssa.Parameter); !isPrm {
+				return nil
+			}
+		default:
+			return nil
+		}
+	}
+	if call == nil {
+		return nil
+	}
+	g := call.Call.StaticCallee()
+	if g == nil || g == f || !p.InModule(g) || g.Blocks == nil || call.Call.IsInvoke() {
+		return nil
+	}
+	fi := &fwdInfo{Target: g}
+	anyField := false
+	for _, a := range call.Call.Args {
+		switch x := a.(type) {
+		case *ssa.Parameter:
+			fi.Args = append(fi.Args, fwdArg{paramIndex(x), -1})
+		case *ssa.UnOp:
+			fa, ok := x.X.(*ssa.FieldAddr)
+			if !ok || x.Op != token.MUL {
+				return nil
+			}
+			var prm *ssa.Parameter
+			switch b := fa.X.(type) {
+			case *ssa.Parameter:
+				prm = b
+			case *ssa.Alloc:
+				if w, ok := plainCopyOf(b).(*ssa.Parameter); ok {
+					prm = w
+				}
+			}
+			if prm == nil || prm.Parent() != f {
+				return nil
+			}
+			fi.Args = append(fi.Args, fwdArg{paramIndex(prm), fa.Field})
+			anyField = true
+		case *ssa.Field:
+			prm, ok := x.X.(*ssa.Parameter)
+			if !ok || prm.Parent() != f {
+				return nil
+			}
+			fi.Args = append(fi.Args, fwdArg{paramIndex(prm), x.Field})
+			anyField = true
+		default:
+			return nil
+		}
+	}
+	if !anyField {
+		return nil
+	}
+	ret, ok := f.Blocks[0].Instrs[len(f.Blocks[0].Instrs)-1].(*ssa.Return)
+	if !ok {
+		return nil
+	}
+	for i, r := range ret.Results {
+		if r == ssa.Value(call) {
+			continue
+		}
+		if ex, ok := r.(*ssa.Extract); ok && ex.Tuple == ssa.Value(call) && ex.Index == i {
+			continue
+		}
+		return nil
+	}
+	return fi
+}
+
+// vArg is an argument seen through a forwarding method: the value V, or (Field >= 0) field Field of the struct V.
+type vArg struct {
+	V     ssa.Value
+	Field int
+}
+
+// forwardedCall: when the callee of cc is a forwarding method, the function it forwards to and that call's arguments in
+// terms of cc's own arguments.
+func forwardedCall(cc *ssa.CallCommon) (*ssa.Function, []vArg) {
+	if curProg == nil {
+		return nil, nil
+	}
+	f := cc.StaticCallee()
+	fi := curProg.fwdOf[f]
+	if fi == nil {
+		return nil, nil
+	}
+	var out []vArg
+	for _, a := range fi.Args {
+		if a.Param < 0 || a.Param >= len(cc.Args) {
+			return nil, nil
+		}
+		out = append(out, vArg{cc.Args[a.Param], a.Field})
+	}
+	return fi.Target, out
 }
 
 // calleeOf is StaticCallee with thin forwarding wrappers resolved to their implementation.
